@@ -186,7 +186,8 @@ def execute(scn, zy: Zygotes, keep=False):
     finally:
         if not keep:
             shutil.rmtree(root, ignore_errors=True)
-    return obs
+    # world-root path prefix is the only run-specific string that can reach an observation (error messages)
+    return json.loads(json.dumps(obs).replace(root, '<ROOT>'))
 
 
 def _tear_len(tear, size):
